@@ -118,6 +118,12 @@ def run(patterns, tier, props_override):
                 status = {0: "SURVIVED", 1: "killed", 2: "HARNESS-ERROR"}.get(c.returncode, f"exit{c.returncode}")
                 results.append((f"{name} [{pid} {tier}]", status, f"{time.time() - t0:.0f}s " +
                                 (viol[0][:200] if viol else (c.stdout.strip().splitlines() or ["?"])[-1][:200])))
+                rp = os.path.join(d, "last_result.json")
+                prev = json.load(open(rp)) if os.path.exists(rp) else {}
+                prev[f"{pid}:{tier}"] = {"status": status, "buckets": [l.split("key=")[1].split(" ")[0] for l in viol if "key=" in l][:6],
+                                         "repo_head": subprocess.run(["git", "-C", "/repo", "log", "--format=%h", "-1"],
+                                                                     capture_output=True, text=True).stdout.strip()}
+                json.dump(prev, open(rp, "w"), indent=1)
         finally:
             drop(work)
     bad = 0
@@ -127,8 +133,35 @@ def run(patterns, tier, props_override):
     return 1 if bad else 0
 
 
+def index():
+    """seeded/INDEX.md: one line per stored change with what it needs and which check caught it."""
+    rows = []
+    for d in sorted(glob.glob(os.path.join(HERE, "seeded", "*", "meta.json"))):
+        name = os.path.basename(os.path.dirname(d))
+        meta = json.load(open(d))
+        rp = os.path.join(os.path.dirname(d), "last_result.json")
+        res = json.load(open(rp)) if os.path.exists(rp) else {}
+        caught = "; ".join(f"{k} {v['status']}" + (f" ({', '.join(v['buckets'][:2])})" if v["buckets"] else "") for k, v in sorted(res.items()))
+        first = ""
+        for line in (meta.get("needs_to_manifest") or "").splitlines():
+            line = line.strip(" #*-")
+            if len(line) > 25:
+                first = line[:170]
+                break
+        rows.append(f"| {name} | {meta['property']} | {first.replace('|', '/')} | {caught or 'not run'} | {meta.get('domain_note', '')} |")
+    with open(os.path.join(HERE, "seeded", "INDEX.md"), "w") as f:
+        f.write("# Seeded changes (written by independent sub-agents, confirmed in scratch worktrees)\n\n"
+                "Each directory holds patch.diff, demo.py, notes.md, meta.json (what it breaks, what it needs, what was run) and "
+                "last_result.json (outcome of the registered check against the patched tree).\n\n"
+                "| change | property | summary (from the author's notes) | check result | note |\n|---|---|---|---|---|\n" + "\n".join(rows) + "\n")
+    print(f"wrote seeded/INDEX.md with {len(rows)} rows")
+
+
 if __name__ == "__main__":
     args = sys.argv[1:]
+    if args and args[0] == "index":
+        index()
+        sys.exit(0)
     if args and args[0] == "confirm":
         sys.exit(0 if confirm(*args[1:]) else 1)
     if args and args[0] == "run":
